@@ -10,6 +10,7 @@
 (*                     alphabet (stack discipline, misplaced closures)     *)
 (*   family "closure": lazy operators, all/any, nesting, shadowing, arity  *)
 (*   family "compose": computed strings vs literals / collection members  *)
+(*   family "extern":  extern functions (registered or not, 1 and 2 args) *)
 (***************************************************************************)
 EXTENDS Expr, ExprStr, TLC, Json
 
@@ -88,6 +89,24 @@ StackCases ==
 
 UnaryCases  == {Case(<<Val(v), Un(op)>>, NoEnv) : v \in Values, op \in UnaryOps}
 
+\* ---- extern family: registered and unregistered functions, one and two arguments, a result that is a
+\* default symbol, results fed to other operators, closures as arguments
+UnF(f)  == [o |-> "un", op |-> "Ffi", f |-> f]
+BinF(f) == [o |-> "bin", op |-> "Ffi", f |-> f]
+ExtVals == {Small(1), Str("a"), Str("read"), T, Null, Arr(<<Small(1)>>), SetV({Str("a")})}
+ExternCases ==
+    {Case(<<Val(v), UnF(f)>>, NoEnv) : v \in ExtVals, f \in ExternNames \cup {"nope"}}
+    \cup {Case(<<Val(a), Val(b), BinF(f)>>, NoEnv) : a \in ExtVals, b \in ExtVals, f \in ExternNames \cup {"nope"}}
+    \cup {Case(<<Val(v), UnF("sym"), Val(Str(z)), Bin(op)>>, NoEnv) : v \in {Small(1)}, z \in {"read", "re", "a"}, op \in {"Equal", "NotEqual", "HeterogeneousEqual", "Add", "Prefix"}}
+    \cup {Case(<<Val(c), Val(Small(1)), UnF("sym"), Bin(op)>>, NoEnv) :
+            c \in {Arr(<<Str("read")>>), SetV({Str("read")}), MapV({<<Str("read"), Small(1)>>})}, op \in {"Contains", "Get"}}
+    \cup {Case(<<Val(v), UnF("id"), UnF("id"), Un("Length")>>, NoEnv) : v \in ExtVals}
+    \cup {Case(<<Val(Small(1)), CloOp(<<>>, TrueBody), BinF(f)>>, NoEnv) : f \in {"id", "nope"}}
+    \cup {Case(<<CloOp(<<>>, TrueBody), UnF("id")>>, NoEnv), Case(<<UnF("id")>>, NoEnv), Case(<<Val(Small(1)), BinF("id")>>, NoEnv)}
+    \cup {Case(<<Val(Arr(<<Small(1), Small(2)>>)), CloOp(<<"p">>, <<Var("p"), UnF("isint")>>), Bin(op)>>, NoEnv) : op \in {"All", "Any"}}
+    \cup {Case(<<Val(T), CloOp(<<>>, <<Val(Small(1)), UnF(f)>>), Bin("LazyOr")>>, NoEnv) : f \in {"fail", "nope"}}
+    \cup {Case(<<Val(F), CloOp(<<>>, <<Val(Small(1)), UnF(f)>>), Bin("LazyOr")>>, NoEnv) : f \in {"fail", "isint"}}
+
 \* ---- compose family: a string COMPUTED during evaluation is the same value as that string written as a
 \* literal, held in a collection, used as a map key or bound by the rule - whatever the string is
 \* (implementations intern strings; "read" is one of the strings every symbol table starts with)
@@ -115,6 +134,7 @@ Next ==
          [] Family = "stack"   -> case_' \in StackCases
          [] Family = "closure" -> case_' \in (LazyCases \cup QuantCases)
          [] Family = "compose" -> case_' \in ComposeCases
+         [] Family = "extern"  -> case_' \in ExternCases
 
 Spec == Init /\ [][Next]_vars
 Ready == seed = "done"
